@@ -146,12 +146,14 @@ def e_Slice(self, n, st):
 
 
 def e_IfExp(self, n, st):
-    c = self.truth(self.eval(n.test, st), n)
+    cv = self.eval(n.test, st)
+    c = self.truth(cv, n)
     if c is True:
         return self.eval(n.body, st)
     if c is False:
         return self.eval(n.orelse, st)
-    return join(self.eval(n.body, st), self.eval(n.orelse, st))
+    r = join(self.eval(n.body, st), self.eval(n.orelse, st))
+    return r.with_taint(taint_of(cv)) if taint_of(cv) else r
 
 
 def truth(self, v, node=None):
@@ -307,6 +309,10 @@ def num_add(self, a, b, node, what='add', sub=False):
     r.nonneg = (a.nonneg and b.nonneg) and not sub
     r.ex = None
     r.sx = None
+    if self.d4 and what in ('add', 'compare'):
+        from . import charge as Q
+        qb = Q.q_neg(b.q) if False else b.q
+        r.q = Q.q_same(self, a.q, qb, node, what)
     r.sz = sz_join(a, b) if what in ('add', 'store', 'concat') else sp.Integer(1)
     if a.ex is not None and b.ex is not None:
         r.ex = (a.ex - b.ex) if sub else (a.ex + b.ex)
@@ -335,6 +341,7 @@ def num_mul(self, a, b, node, div=False, va=None, vb=None):
     if a.zero or (b.zero and not div):
         r = Num(zero=True, shape=shape, cplx=cplx, taint=taint)
         r.ex = Aff(0) if shape == () else None
+        r.q = 'any'
         return r
     if div and b.zero:
         return Num(top_deg(), shape, cplx, taint=taint)
@@ -366,6 +373,9 @@ def num_mul(self, a, b, node, div=False, va=None, vb=None):
             self.conflict('mul', 'nfft', 'value scaled by %s, a function of NFFT that is not proportional to NFFT' % x.ex, node)
     for c in COMPS:
         r.deg[c] = dadd(a.deg[c], dneg(b.deg[c]) if div else b.deg[c])
+    if self.d4:
+        from . import charge as Q
+        r.q = Q.q_mul(a.q, b.q, div)
     if a.sz is None or b.sz is None:
         r.sz = None
     elif b.sz is sp.S.One:
@@ -426,6 +436,17 @@ def num_pow(self, a, b, node, vb=None):
     else:
         for c in COMPS:
             r.deg[c] = dmul(a.deg[c], k)
+    if self.d4:
+        from . import charge as Q
+        if a.q == 'any':
+            r.q = 'any'
+        elif a.q is not None and k is not None and not _sym(k) and F(k).denominator == 1:
+            kk = int(k)
+            r.q = Q.lin(a.q[1] * kk, a.q[2].scale(kk)) if Q.is_lin(a.q) else a.q.scale(kk)
+        elif isinstance(a.q, Aff) and a.q == Aff(0):
+            r.q = Aff(0)
+        else:
+            r.q = None
     if a.sz is sp.S.One:
         r.sz = sp.S.One
     elif a.sz is None or k is None:
@@ -760,6 +781,10 @@ def compare_vals(self, op, a, b, node):
         try:
             if na.zero or nb.zero:
                 v = nb if na.zero else na
+                if self.d4 and v.q is not None and v.q != 'any':
+                    from . import charge as Q
+                    if Q.is_lin(v.q) or not Q.q_eq(v.q, Aff(0)):
+                        self.conflict('compare', 'q', 'sign/zero test of a value with modulation charge %s' % Q.show(v.q), node)
                 if not v.zero and v.log is None:
                     for c in ('g', 'gy'):
                         if dzero(v.deg[c]) is False:
@@ -850,6 +875,15 @@ def attr_of(self, v, attr, st, n):
                         self.conflict('phase', c, '.%s of a value that carries a phase (exponent %s): not covariant' %
                                       (attr, nv.deg[c]), n)
                         r.deg[c] = TOP
+            if self.d4:
+                from . import charge as Q
+                if nv.q is None:
+                    r.q = None
+                elif nv.q == 'any' or (isinstance(nv.q, Aff) and Q.q_eq(nv.q, Aff(0))):
+                    r.q = nv.q
+                else:
+                    self.conflict('phase', 'q', '.%s of a value with modulation charge %s: not shift covariant' % (attr, Q.show(nv.q)), n)
+                    r.q = None
             if attr == 'real' and isinstance(v, Num) and v.seg is not None:
                 r.seg = relabel(v.seg) if v.cplx is not False else list(v.seg)
                 r.segax = v.segax
@@ -1212,6 +1246,40 @@ def index_value(self, v, idx, node):
         out.extend(shape[ax:])
         r = nv.copy(shape=tuple(out), taint=t)
         r.ex = None
+        if self.d4 and len(shape) == 1 and len(idxs) == 1:
+            from . import charge as Q
+            from . import segmap
+            from .prims import _int_aff
+            ix = idxs[0]
+            r.q = None
+            if isinstance(ix, SliceV):
+                stp = 1
+                okq = True
+                if ix.step is not None:
+                    sa_ = _int_aff(ix.step)
+                    if sa_ is not None and sa_.is_const() and int(sa_.c) in (1, -1):
+                        stp = int(sa_.c)
+                    else:
+                        okq = False
+                if okq and shape[0] is not None:
+                    if ix.lo is None:
+                        lo_abs = Aff(0) if stp == 1 else shape[0] - 1
+                    else:
+                        la = _int_aff(ix.lo)
+                        lo_abs = segmap.norm_index(la, shape[0]) if la is not None else None
+                    r.q = Q.q_slice(nv.q, lo_abs, stp) if (lo_abs is not None or not Q.is_lin(nv.q)) else None
+                elif okq and not Q.is_lin(nv.q):
+                    r.q = nv.q
+            else:
+                ia_ = _asint(ix)
+                if ia_ is not None:
+                    ab = ia_.a
+                    if ab is not None and shape[0] is not None:
+                        ab2 = segmap.norm_index(ab, shape[0])
+                        ab = ab2 if ab2 is not None else ab     # a symbolic index of unknown sign: taken as non-negative
+                    r.q = Q.q_index(nv.q, ab)
+        elif self.d4:
+            r.q = nv.q if isinstance(nv.q, Aff) or nv.q == 'any' else None
         if fancy is None and r.is_array:
             r.view_of = nv.view_of          # basic slicing returns a view
         if fancy is not None:
@@ -1273,6 +1341,14 @@ def comprehension(self, n, st, elt):
     v = self.eval(elt, inner)
     st.heap = inner.heap
     self.pc = save_pc
+    self._last_comp = None
+    if len(n.generators) == 1 and isinstance(n.generators[0].target, ast.Name):
+        tv = inner.env.get(n.generators[0].target.id)
+        it0 = self.eval(n.generators[0].iter, st) if False else None
+        if isinstance(tv, IntV) and tv.a is not None and len(tv.a.t) == 1 and tv.a.c == 0:
+            sym = list(tv.a.t)[0]
+            if sym in Aff.BOUNDS:
+                self._last_comp = (sym, Aff.BOUNDS[sym][0])
     return v, count
 
 
@@ -1284,6 +1360,17 @@ def e_ListComp(self, n, st):
         r = nv.copy(shape=sh)
         r.ex = None
         r.tag_list = True
+        if self.d4:
+            from . import charge as Q
+            q = nv.q
+            if isinstance(q, Aff) and getattr(self, '_last_comp', None) and nv.shape == ():
+                sym, lo = self._last_comp
+                alpha = q.t.get(sym, F(0))
+                if alpha != 0 and lo is not None:
+                    beta = q - Aff(0, {sym: alpha}) + lo.scale(alpha)
+                    r.q = Q.lin(alpha, beta)
+            elif Q.is_lin(q):
+                r.q = None
         return r
     return SeqV(v, count, taint_of(v))
 
